@@ -199,6 +199,10 @@ func main() {
 		}
 		guard(fmt.Sprintf("MaybeNil %s %s", lob(x), lob(y)), "some "+lob(p.MaybeNil(x, y)))
 	}
+	for i := 0; i < N; i++ {
+		a, b := make([]byte, rng.Intn(500)), make([]byte, rng.Intn(1000))
+		guard(fmt.Sprintf("Words (%d : Int64) (%d : Int64)", len(a), len(b)), lu(p.Words(a, b)))
+	}
 	for a := uint64(0); a < 12; a++ {
 		var r uint64
 		if try(func() { r = p.Panics(a) }) {
